@@ -126,6 +126,31 @@ IDCf(G, X, Y, Z) ==
        IF IsFail(pp) THEN Fail
        ELSE IF Z = {} THEN pp ELSE FT(pp, SumT(Y, pp))
 
+
+\* ---------------------------------------------------------------- transport (surrogate outcomes, Tikka & Karvanen)
+\* the nodes at which source domain (Z, W) may differ from the target: the derived selection diagram
+\* (descendants of the experiments that are not surrogate outcomes, and the members of the districts of the
+\*  surrogate outcomes that are not ancestors of W once the edges into Z are removed)
+TransportNodes(G, Z, W) ==
+  (De(G, Z) \ W) \cup
+  (UNION {D \in Districts(G) : D \cap W # {}} \ An(RemoveIn(G, Z), W))
+DomainConfigs(G) == {<<Z, W>> \in (SUBSET G.n) \X (SUBSET G.n) : W # {} /\ Z \cap W = {}}
+
+\* vocabulary of C06 for transport estimands: population-tagged terms only; target terms (pop 0) are
+\* observational; a term of domain k carries one common subscript set, a subset of Z_k; zs[k] = Z_k
+RECURSIVE TransportVocab(_, _, _)
+TransportVocab(e, V, zs) ==
+  CASE e.t = "P" -> /\ \A v \in TermVars(e) : v.s = 0 /\ v.n \in V /\ IvNames(v) \subseteq V
+                    /\ Cardinality({ToSet(v.iv) : v \in TermVars(e)}) <= 1
+                    /\ \A v \in TermVars(e) : \A i \in ToSet(v.iv) : i[2] # 2
+                    /\ IF e.pop = 0 THEN \A v \in TermVars(e) : v.iv = <<>>
+                       ELSE e.pop \in DOMAIN zs /\ \A v \in TermVars(e) : IvNames(v) \subseteq zs[e.pop]
+    [] e.t = "M" -> \A i \in DOMAIN e.es : TransportVocab(e.es[i], V, zs)
+    [] e.t = "F" -> TransportVocab(e.a, V, zs) /\ TransportVocab(e.b, V, zs)
+    [] e.t = "S" -> ToSet(e.r) \subseteq V /\ TransportVocab(e.e, V, zs)
+    [] e.t = "Q" -> FALSE
+    [] OTHER -> TRUE
+
 \* ---------------------------------------------------------------- queries of a graph
 Queries(G)  == {<<X, Y>> \in (SUBSET G.n) \X (SUBSET G.n) : X # {} /\ Y # {} /\ X \cap Y = {}}
 CQueries(G) == {<<X, Y, Z>> \in (SUBSET G.n) \X (SUBSET G.n) \X (SUBSET G.n) :
